@@ -96,7 +96,9 @@ Spec == Init /\ [][Next]_vars
 ---------------------------------------------------------------------------
 (* C38: a lookup that started after a publish was acknowledged as an update never answers with
    anything older than that publish *)
-NoStaleAnswer == \A r \in Resolvers : rpc[r] = "done" => rans[r] >= rstart[r]
+Older(answer, demanded) == answer < demanded
+Stale(r) == rpc[r] = "done" /\ Older(rans[r], rstart[r])
+NoStaleAnswer == \A r \in Resolvers : ~Stale(r)
 \* whenever nothing is in flight the cache holds nothing but the stored version
 QuiescentCoherent == (\A r \in Resolvers : rpc[r] \in {"idle", "done"}) /\ (\A p \in Publishers : ppc[p] \in {"idle", "done"})
                         => cache \in {0, store}
